@@ -51,8 +51,74 @@ def load():
     if got != repo:
         raise RuntimeError("pyins imported from %s, expected %s" % (got, repo))
     ns.repo = repo
+    ns.reattached = _reattach_private(ns)
     _cache["py"] = ns
     return ns
+
+
+# Private helpers the sidecar contracts name.  A sidecar contract is attached to a function by its name; when a private
+# helper is renamed (the public interface is unchanged, so this is a harmless refactoring) the contract is re-attached by
+# ROLE: the one private function that the same public callers call, with the same number of parameters (and, if several,
+# the same parameter names), and that is not itself one of the names below.  No or several candidates: the contract stays unattached (interface outside the
+# contract: exit 3, never a verdict).   (module, name) -> (callers, number of parameters)
+PRIVATE_ROLES = {
+    ("sim", "_compute_increment_readings"): (("generate_imu",), ("dt", "a", "b", "c", "d", "e")),
+    ("filters", "_interpolate_pva"): (("run_feedback_filter", "run_feedforward_filter"), ("first", "second", "alpha")),
+    ("filters", "_initialize_covariance"): (("run_feedback_filter", "run_feedforward_filter"),
+                                            ("pva", "pos_sd", "vel_sd", "level_sd", "azimuth_sd", "error_model", "gyro_model", "accel_model")),
+    ("filters", "_compute_error_propagation_matrices"): (("run_feedback_filter", "run_feedforward_filter"),
+                                                         ("pva", "gyro", "accel", "time_delta", "error_model", "gyro_model", "accel_model")),
+    ("filters", "_compute_sd"): (("run_feedback_filter", "_compute_feedforward_result"), ("P", "trajectory", "error_model", "gyro_model", "accel_model")),
+    ("filters", "_compute_feedforward_result"): (("run_feedforward_filter",),
+                                                 ("x", "P", "trajectory_nominal", "trajectory", "error_model", "gyro_model", "accel_model")),
+    ("filters", "_correct_increments"): (("run_feedback_filter",), ("increments", "gyro_model", "accel_model")),
+    ("error_model", "_phi_to_delta_rph"): (("InsErrorModel._transform_to_output_3d", "InsErrorModel.transform_to_output"), ("rph",)),
+}
+
+
+def _reattach_private(ns):
+    import ast
+    import inspect
+    import textwrap
+    known = {n for (_m, n) in PRIVATE_ROLES}
+    done = {}
+    for (m, name), (callers, pnames) in PRIVATE_ROLES.items():
+        mod = getattr(ns, m, None)
+        if mod is None or name in vars(mod):
+            continue
+        called = []
+        for c in callers:
+            obj = mod
+            for part in c.split("."):
+                obj = getattr(obj, part, None) if obj is not None else None
+            f = py_func(getattr(obj, "__func__", obj)) if obj is not None else None
+            if f is None:
+                continue
+            try:
+                tree = ast.parse(textwrap.dedent(inspect.getsource(inspect.unwrap(f))))
+            except (OSError, TypeError, SyntaxError):
+                continue
+            for n in ast.walk(tree):
+                if isinstance(n, ast.Call) and isinstance(n.func, ast.Name) and n.func.id not in called:
+                    called.append(n.func.id)
+        cands = []
+        for k in called:
+            v = vars(mod).get(k)
+            if not k.startswith("_") or k.startswith("__") or k in known or not callable(v) or isinstance(v, type):
+                continue
+            try:
+                ps = tuple(inspect.signature(py_func(v)).parameters)
+            except (TypeError, ValueError):
+                continue
+            if len(ps) == len(pnames):
+                cands.append((k, ps))
+        if len(cands) > 1:
+            cands = [c for c in cands if c[1] == tuple(pnames)]          # several of that arity: the parameter names decide
+        cands = [c[0] for c in cands]
+        if len(cands) == 1:
+            setattr(mod, name, vars(mod)[cands[0]])
+            done["%s.%s" % (m, name)] = cands[0]
+    return done
 
 
 def source_of(module_name):
